@@ -500,10 +500,11 @@ def gen_cases():
         nm = rng.choice(NAMES)
         cases.append(('E', mk(nm, 'execa', [None] * 3, ['-m', s, 'f']), None))
         cases.append(('E', mk(nm, 'execa', [None] * 3, ['-dm' + s]), None))
-    # D. random token soups
+    # D. random token soups (no number above 4 can follow -n: the real
+    # program would try to start that many threads)
     voc = ['-d', '-z', '-c', '-t', '-k', '-f', '-q', '-s', '-v', '-u', '-S',
            '-1', '-5', '-9', '-dk', '-kf', '-zc', '-ck', '-dq', '-sd', '-qs9',
-           '-n', '-n2', '2', '-m', '-m100', '100k', '4', 'f', 'h', 'f', 'h',
+           '-n', '-n2', '2', '-m', '-m100k', '3', '4', 'f', 'h', 'f', 'h',
            '-', '--', '-h', '-V', '--help', '--stdout', '--test',
            '--decompress', '--compress', '--fast', '--best', '--force',
            '--keep', '--small', '--sequential', '--verbose', '--quiet',
